@@ -228,7 +228,7 @@ class C10(core.Check):
 
     def cases(self, tier, seed, shard, nshards):
         rnd = core.sub_rng('C10', seed, shard)
-        n = (6000 if tier == 'quick' else 120000) // nshards
+        n = (16000 if tier == "quick" else 160000) // nshards
         for i in range(n):
             yield dict(s=rnd.getrandbits(48), lang=rnd.choice(['en', 'en', 'de', 'ru']), ml=rnd.random() < .35)
 
